@@ -107,8 +107,9 @@ def routing_probes(v):
 
 def run(tier, replay=None):
     v = common.Verdict('C16', tier, 'model_checking')
-    scen = ['estab', 'init'] if tier == 'quick' else ['estab_loss', 'init3', 'init_ke', 'init_cookie', 'estab_rekey_ke']
-    ikeprop.run(v, scen)
+    scen = ['estab', 'init', 'adv_init'] if tier == 'quick' else ['estab_loss', 'init3', 'init_ke', 'init_cookie', 'estab_rekey_ke', 'adv_init', 'adv']
+    # the table is this property's whatever kind of datagram changed it (a forged one is C03's business too)
+    ikeprop.run(v, scen, owns=lambda mm: mm['component'] in ('table', 'routing'))
     if tier == 'thorough':
         ikeprop.run_traces(v, 400, 120)            # binding B: the IKE_SA table of recorded random schedules
     routing_probes(v)
